@@ -29,12 +29,10 @@ missing = [n for n in b['stable_pass'] if res.get(n) != 'pass']
 print('suite with patch: stable_pass not passing:', len(missing), missing[:5])
 PY
 rm -f $OUT
-cd /repo
-git diff --quiet || { echo "/repo dirty"; exit 3; }
-git apply $S/patch.diff || { echo "patch does not apply to /repo"; exit 3; }
+# the worktree (patch applied) is analysed in place of /repo, so that /repo stays untouched
+# while other runs are using it; the patch is known to apply to /repo's HEAD (same commit)
+[ "$(git -C $WT rev-parse HEAD)" = "$(git -C /repo rev-parse HEAD)" ] || echo "WARNING: worktree is not at /repo HEAD"
 cd /verif
 for c in "$@"; do
-  ./check $c 2>&1 | grep -E "^VIOLATION|^SUMMARY|^HARNESS|^NONREPRO|atom=" | cut -c1-260 | head -6
+  VERIF_REPO=$WT ./check $c 2>&1 | grep -E "^VIOLATION|^SUMMARY|^HARNESS|^NONREPRO|atom=" | cut -c1-260 | head -6
 done
-git -C /repo checkout -- .
-git -C /repo status --short | head -3
